@@ -16,13 +16,26 @@ class ExactNode(Node):
         """
         Gets the current time
         """
-        return Decimal(self.simulation.current_time)
+        return Decimal(str(self.simulation.current_time))
 
     def create_starting_servers(self):
         """
         Initialise the servers
         """
-        return [Server(self, i + 1, Decimal("0.0")) for i in range(self.c)]
+        servers = [Server(self, i + 1, Decimal("0.0")) for i in range(self.c)]
+        for server in servers:
+            server.busy_time = Decimal("0.0")
+        return servers
+
+    def add_new_servers(self, num_servers):
+        """
+        Add appropriate amount of servers for the given shift
+        (their busy time is a Decimal from the start)
+        """
+        number_before = len(self.servers)
+        super().add_new_servers(num_servers)
+        for server in self.servers[number_before:]:
+            server.busy_time = Decimal("0.0")
 
     def increment_time(self, original, increment):
         """
